@@ -1065,6 +1065,47 @@ def r12_5(chk: Check) -> None:
     chk.floor("R12.5", 3)
 
 
+def r12_11(chk: Check) -> None:
+    """estimateTruncationError: the estimate is a ratio of sums of |Chebyshev coefficients|; numerators AND the normalisation must be read from the
+    polynomial after it was converted to the Chebyshev basis on all three axes -- a norm taken from the raw array (in whatever basis the solver
+    uses) makes the reported truncation error, which feeds the wall-velocity error, depend on the choice of (basisM, basisN)."""
+    from ..flow import CFG
+    S = chk.src
+    fi = S.func(f"{BS}.estimateTruncationError")
+    chk.touch(fi.name)
+    g = CFG(fi.node)
+    params = [p for p in fi.params() if p != "self"]
+    if not params:
+        raise AnchorMissing("estimateTruncationError: no array parameter")
+    RAW = params[0]
+    polys = [q for q in g.nodes if isinstance(q, ast.Assign) and len(q.targets) == 1 and isinstance(q.targets[0], ast.Name) and isinstance(q.value, ast.Call)
+             and (dotted(q.value.func) or "").split(".")[-1] == "Polynomial" and q.value.args and isinstance(q.value.args[0], ast.Name) and q.value.args[0].id == RAW]
+    if len(polys) != 1:
+        raise AnchorMissing("estimateTruncationError: the Polynomial built from the solution not found")
+    Pn = polys[0].targets[0].id
+    cx = Ctx(S, fi)
+    cbs = [q for q in g.nodes if isinstance(q, ast.Expr) and isinstance(q.value, ast.Call) and eqx(q.value.func, f"{Pn}.changeBasis") and q.value.args
+           and eqx(cx.resolve(q.value.args[0]), "('Array', 'Chebyshev', 'Chebyshev', 'Chebyshev')")]
+    chk.ob("R12.11", fi.where(), "estimateTruncationError converts the solution to the Chebyshev basis on all three polynomial axes", len(cbs) == 1,
+           f"{len(cbs)} such conversions", key="trunc|to-chebyshev")
+    reads = [q for q in g.nodes if isinstance(q, ast.AST) and g.kind.get(q) != "def" and q not in cbs
+             and any(isinstance(x, ast.Attribute) and x.attr == "coefficients" and isinstance(x.value, ast.Name) and x.value.id == Pn for x in ast.walk(q))]
+    early = [q for q in reads if not (cbs and g.must_pass(CFG.ENTRY, q, lambda x: x in cbs))]
+    chk.ob("R12.11", fi.where(), "every read of the coefficients entering the estimate happens after that conversion", len(reads) >= 1 and not early,
+           "; ".join(f"line {q.lineno}: `{n(q)[:60]}`" for q in early), key="trunc|reads-after")
+    raw = []
+    for q in g.nodes:
+        if not isinstance(q, ast.AST) or q is polys[0] or g.kind.get(q) == "def":
+            continue
+        meta = {id(x.value) for x in ast.walk(q) if isinstance(x, ast.Attribute) and isinstance(x.value, ast.Name) and x.value.id == RAW
+                and x.attr in ("shape", "ndim", "dtype", "size")}        # reading the shape is not reading the values
+        if any(isinstance(x, ast.Name) and x.id == RAW and isinstance(x.ctx, ast.Load) and id(x) not in meta for x in ast.walk(q)):
+            raw.append(q)
+    chk.ob("R12.11", fi.where(), f"the raw array `{RAW}` (in the solver's own basis) enters the estimate only through that polynomial", not raw,
+           "; ".join(f"line {q.lineno}: `{n(q)[:60]}`" for q in raw), key="trunc|no-raw")
+    chk.floor("R12.11", 3)
+
+
 def rules(chk: Check) -> None:
     M = Model(chk.src)
     chk.touch(M.fi.name)
@@ -1075,6 +1116,7 @@ def rules(chk: Check) -> None:
     if slots is not None:
         chk.stage(r12_4, chk, M, slots)
     chk.stage(r12_5, chk)
+    chk.stage(r12_11, chk)
     # basis independence of everything derived from deltaF (shared rule with C13)
     from .c13 import cardinal_before_weights
     chk.stage(cardinal_before_weights, chk, "R12.6")
